@@ -71,7 +71,7 @@ Section Eqs.
       xs (SRet (Some e)) st = match eval permI e st with EV v s1 => RReturn v s1 | EP w => RPanic w end.
   Proof. reflexivity. Qed.
   Lemma xs_call : forall f st,
-      xs (SCallM f) st = match do_call rec ft f st with RReturn _ s => RNormal s | r => r end.
+      xs (SCallM f []) st = match do_call rec ft f [] st with RReturn _ s => RNormal s | r => r end.
   Proof. reflexivity. Qed.
   Lemma xs_lock : forall m st, xs (SLock m) st = opt_result (do_lock m st).
   Proof. reflexivity. Qed.
@@ -116,7 +116,7 @@ Definition body_of (f : string) : list stmt :=
   match lookup f golite_funcs with Some g => gf_body g | None => [] end.
 
 Definition with_mutex (a u : nat) (st : state) : state :=
-  mkState (heap st) (locals st) (drawn st) a u (held st) (defers st).
+  mkState (heap st) (locals st) (drawn st) a u (held st) (defers st) (effects st).
 
 (* ================= callContainer.nextSeqid ================= *)
 Definition name_nextSeqid := "callContainer.nextSeqid".
@@ -124,31 +124,31 @@ Section Seq.
   Variable permI : nat -> nat -> list nat.
   Local Notation run := (run_fun permI).
 
-  Definition seq_state (s : Z) : state := mkState [("cc.seqid", VInt s)] [] 0 0 0 [] [].
+  Definition seq_state (s : Z) : state := mkState [("cc.seqid", VInt s)] [] 0 0 0 [] [] [].
 
   (* general form: any heap holding cc.seqid, any frame, any counters, the mutex free *)
-  Lemma nextSeqid_run : forall fuel H L d a u h df s,
+  Lemma nextSeqid_run : forall fuel H L d a u h df ef s,
       1 <= fuel -> lookup "cc.seqid" H = Some (VInt s) -> mem_s "cc.seqMtx" h = false ->
-      run fuel golite_funcs "callContainer.nextSeqid" (mkState H L d a u h df) =
-      RReturn (VInt s) (mkState (upd "cc.seqid" (VInt (wrap 64 (s + 1))) H) L d (S a) (S u) h df).
+      run fuel golite_funcs "callContainer.nextSeqid" (mkState H L d a u h df ef) =
+      RReturn (VInt s) (mkState (upd "cc.seqid" (VInt (wrap 64 (s + 1))) H) L d (S a) (S u) h df ef).
   Proof.
-    intros fuel H L d a u h df s Hfuel Hs Hm.
+    intros fuel H L d a u h df ef s Hfuel Hs Hm.
     destruct fuel as [|f]; [lia|].
-    unfold run_fun, do_call.
+    unfold run_fun, run_fun_args, do_call.
     change (lookup "callContainer.nextSeqid" golite_funcs) with
-        (Some (mkGfun "cc" (body_of "callContainer.nextSeqid"))).
-    cbn [gf_body]. rewrite exec_S.
+        (Some (mkGfun "cc" [] (body_of "callContainer.nextSeqid"))).
+    cbn [gf_body gf_params bind]. rewrite exec_S.
     unfold body_of. cbn [lookup golite_funcs String.eqb Ascii.eqb Bool.eqb gf_body].
     rewrite xb_cons, xs_lock. unfold do_lock, enter. cbn [held]. rewrite Hm. cbn [opt_result].
-    rewrite xb_cons, xs_defer. unfold push_defer. cbn [heap locals drawn acq rel held defers].
+    rewrite xb_cons, xs_defer. unfold push_defer. cbn [heap locals drawn acq rel held defers effects].
     rewrite xb_cons, xs_set. cbn [eval get_var is_field Ascii.eqb Bool.eqb orb heap]. rewrite Hs.
-    cbn [set_var is_field Ascii.eqb Bool.eqb orb heap locals drawn acq rel held defers upd].
+    cbn [set_var is_field Ascii.eqb Bool.eqb orb heap locals drawn acq rel held defers effects upd].
     rewrite xb_cons, xs_inc. cbn [get_var is_field Ascii.eqb Bool.eqb orb heap]. rewrite Hs.
-    cbn [set_var is_field Ascii.eqb Bool.eqb orb heap locals drawn acq rel held defers].
+    cbn [set_var is_field Ascii.eqb Bool.eqb orb heap locals drawn acq rel held defers effects].
     rewrite xb_cons, xs_ret.
     cbn [eval get_var is_field Ascii.eqb Bool.eqb orb locals lookup String.eqb].
     unfold leave. cbn [defers run_defers do_unlock held mem_s String.eqb Ascii.eqb Bool.eqb orb remove_s
-                       heap locals drawn acq rel].
+                       heap locals drawn acq rel effects].
     reflexivity.
   Qed.
 
@@ -211,7 +211,7 @@ Section Seq.
     assert (c = 0%Z) by nia. subst c. lia.
   Qed.
 
-  Definition seq_st (s : Z) (d a u : nat) : state := mkState [("cc.seqid", VInt s)] [] d a u [] [].
+  Definition seq_st (s : Z) (d a u : nat) : state := mkState [("cc.seqid", VInt s)] [] d a u [] [] [].
 
   Lemma seq_returns_closed : forall n fuel s d a u, 1 <= fuel -> in_range64 s ->
       seq_returns fuel n (seq_st s d a u) = map (fun k => VInt (wrap 64 (s + Z.of_nat k))) (seq 0 n).
@@ -220,7 +220,7 @@ Section Seq.
     cbn [seq_returns]. unfold seq_st at 1.
     rewrite nextSeqid_run with (s := s); auto.
     cbn [upd String.eqb Ascii.eqb Bool.eqb].
-    change (mkState [("cc.seqid", VInt (wrap 64 (s + 1)))] [] d (S a) (S u) [] [])
+    change (mkState [("cc.seqid", VInt (wrap 64 (s + 1)))] [] d (S a) (S u) [] [] [])
       with (seq_st (wrap 64 (s + 1)) d (S a) (S u)).
     rewrite IH; auto using wrap64_range.
     cbn [seq map]. rewrite Z.add_0_r, (wrap64_id s Hs). f_equal.
@@ -278,7 +278,7 @@ Definition enc_groups (gs : list (list (list N))) : val := VList (map enc_group 
 
 (* the GoLite state that represents a hand-model state: mutex free, counters at zero, empty frame *)
 Definition repr (r : remote) : state :=
-  mkState [("r.addresses", enc_groups (addrs r)); ("r.toIterate", enc_groups (iter r))] [] (draws r) 0 0 [] [].
+  mkState [("r.addresses", enc_groups (addrs r)); ("r.toIterate", enc_groups (iter r))] [] (draws r) 0 0 [] [] [].
 
 Definition resetLocked_body : list stmt := Eval vm_compute in body_of "prioritizedRoundRobinRemote.resetLocked".
 Definition outer_body : list stmt :=
@@ -295,19 +295,19 @@ Section RemoteRefines.
   Local Notation run := (run_fun permI).
   Local Notation ft := golite_funcs.
 
-  Ltac ev := try unfold bump; cbn [eval get_var set_var is_field Ascii.eqb Bool.eqb orb heap locals drawn acq rel held defers
+  Ltac ev := try unfold bump; cbn [eval get_var set_var is_field Ascii.eqb Bool.eqb orb heap locals drawn acq rel held defers effects
                   lookup upd String.eqb binop_eval val_eq int_op option_map bump].
 
-  Lemma inner_range : forall (is : list nat) rec (g : list (list N)) H L acc d a u h df,
+  Lemma inner_range : forall (is : list nat) rec (g : list (list N)) H L acc d a u h df ef,
       Forall (fun i => i < length g) is ->
       lookup "group" L = Some (enc_group g) -> lookup "groupCopied" L = Some (VList acc) ->
       exists L',
-        exec_range permI rec ft "i" inner_body (map (fun i => VInt (Z.of_nat i)) is) (mkState H L d a u h df) =
-        RNormal (mkState H L' d a u h df) /\
+        exec_range permI rec ft "i" inner_body (map (fun i => VInt (Z.of_nat i)) is) (mkState H L d a u h df ef) =
+        RNormal (mkState H L' d a u h df ef) /\
         lookup "group" L' = Some (enc_group g) /\
         lookup "groupCopied" L' = Some (VList (acc ++ map (fun i => VStr (nth i g [])) is)).
   Proof.
-    induction is as [|i is IH]; intros rec g H L acc d a u h df Hall Hg Hc.
+    induction is as [|i is IH]; intros rec g H L acc d a u h df ef Hall Hg Hc.
     - exists L. cbn [map]. rewrite xr_nil, app_nil_r. auto.
     - inversion Hall as [|? ? Hi Hall']; subst.
       cbn [map]. rewrite xr_cons. unfold inner_body.
@@ -321,7 +321,7 @@ Section RemoteRefines.
       rewrite Nat2Z.id, nth_error_map, (@nth_error_nth' (list N) g i [] Hi). cbn [option_map]. ev.
       rewrite xb_nil.
       set (L2 := upd "groupCopied" (VList (acc ++ [VStr (nth i g [])])) L1).
-      destruct (IH rec g H L2 (acc ++ [VStr (nth i g [])])%list d a u h df Hall') as [L' [He [Hg' Hc']]].
+      destruct (IH rec g H L2 (acc ++ [VStr (nth i g [])])%list d a u h df ef Hall') as [L' [He [Hg' Hc']]].
       + unfold L2. rewrite lookup_upd_ne; [auto|discriminate].
       + unfold L2. apply lookup_upd_eq.
       + exists L'. split; [exact He|]. split; [auto|].
@@ -334,15 +334,15 @@ Section RemoteRefines.
     apply (Permutation_in _ (permI_ok n k)) in Hi. apply in_seq in Hi. lia.
   Qed.
 
-  Lemma outer_range : forall (gs : list (list (list N))) rec A T L d a u h df,
+  Lemma outer_range : forall (gs : list (list (list N))) rec A T L d a u h df ef,
       exists L',
         exec_range permI rec ft "group" outer_body (map enc_group gs)
-                   (mkState [("r.addresses", A); ("r.toIterate", VList T)] L d a u h df) =
+                   (mkState [("r.addresses", A); ("r.toIterate", VList T)] L d a u h df ef) =
         RNormal (mkState [("r.addresses", A);
                           ("r.toIterate", VList (T ++ map enc_group (fst (refill perm d gs))))]
-                         L' (snd (refill perm d gs)) a u h df).
+                         L' (snd (refill perm d gs)) a u h df ef).
   Proof.
-    induction gs as [|g gs IH]; intros rec A T L d a u h df.
+    induction gs as [|g gs IH]; intros rec A T L d a u h df ef.
     - exists L. cbn [map refill fst snd]. rewrite xr_nil, app_nil_r. reflexivity.
     - cbn [map]. rewrite xr_cons. unfold outer_body. ev.
       set (L1 := upd "group" (enc_group g) L).
@@ -356,11 +356,11 @@ Section RemoteRefines.
       rewrite xb_cons, xs_range. fold inner_body. ev. rewrite Hg2. unfold enc_group at 1.
       rewrite Hneg, map_length, Nat2Z.id. ev.
       destruct (inner_range (permI d (length g)) rec g
-                            [("r.addresses", A); ("r.toIterate", VList T)] L2 [] (S d) a u h df
+                            [("r.addresses", A); ("r.toIterate", VList T)] L2 [] (S d) a u h df ef
                             (permI_lt d (length g)) Hg2 Hc2) as [L3 [He [Hg3 Hc3]]].
       rewrite He. cbn [app] in Hc3.
       rewrite xb_cons, xs_set. ev. rewrite Hc3. ev. rewrite xb_nil.
-      destruct (IH rec A (T ++ [VList (map (fun i => VStr (nth i g [])) (permI d (length g)))])%list L3 (S d) a u h df)
+      destruct (IH rec A (T ++ [VList (map (fun i => VStr (nth i g [])) (permI d (length g)))])%list L3 (S d) a u h df ef)
         as [L' He'].
       exists L'. unfold outer_body, inner_body in He' |- *. rewrite He'. cbn [refill].
       destruct (refill perm (S d) gs) as [r' n'] eqn:Er. cbn [fst snd map].
@@ -370,19 +370,19 @@ Section RemoteRefines.
   Lemma of_nat_neg : forall n : nat, (Z.of_nat n <? 0)%Z = false.
   Proof. intro n. apply Z.ltb_ge. lia. Qed.
 
-  Lemma resetLocked_call : forall f (gs : list (list (list N))) T L d a u h df, 1 <= f ->
-      do_call (exec permI f ft) ft "prioritizedRoundRobinRemote.resetLocked"
-              (mkState [("r.addresses", enc_groups gs); ("r.toIterate", T)] L d a u h df) =
+  Lemma resetLocked_call : forall f (gs : list (list (list N))) T L d a u h df ef, 1 <= f ->
+      do_call (exec permI f ft) ft "prioritizedRoundRobinRemote.resetLocked" []
+              (mkState [("r.addresses", enc_groups gs); ("r.toIterate", T)] L d a u h df ef) =
       RNormal (mkState [("r.addresses", enc_groups gs); ("r.toIterate", enc_groups (fst (refill perm d gs)))]
-                       L (snd (refill perm d gs)) a u h df).
+                       L (snd (refill perm d gs)) a u h df ef).
   Proof.
-    intros f gs T L d a u h df Hf. destruct f as [|f]; [lia|].
+    intros f gs T L d a u h df ef Hf. destruct f as [|f]; [lia|].
     unfold do_call.
-    change (lookup "prioritizedRoundRobinRemote.resetLocked" ft) with (Some (mkGfun "r" resetLocked_body)).
-    cbn [gf_body]. rewrite exec_S. unfold resetLocked_body, enter, enc_groups. ev.
+    change (lookup "prioritizedRoundRobinRemote.resetLocked" ft) with (Some (mkGfun "r" [] resetLocked_body)).
+    cbn [gf_body gf_params bind]. rewrite exec_S. unfold resetLocked_body, enter, enc_groups. ev.
     rewrite xb_cons, xs_set. ev. rewrite of_nat_neg. ev.
     rewrite xb_cons, xs_range. fold outer_body. ev.
-    destruct (outer_range gs (exec permI f ft) (VList (map enc_group gs)) [] [] d a u h []) as [L' He].
+    destruct (outer_range gs (exec permI f ft) (VList (map enc_group gs)) [] [] d a u h [] ef) as [L' He].
     rewrite He. rewrite xb_nil. unfold leave. ev. cbn [run_defers app]. ev. reflexivity.
   Qed.
 
@@ -391,9 +391,9 @@ Section RemoteRefines.
   Definition name_peek := "prioritizedRoundRobinRemote.Peek".
 
   Ltac enter_fun nm :=
-    unfold run_fun, do_call;
-    change (lookup nm ft) with (Some (mkGfun "r" (body_of nm)));
-    cbn [gf_body]; rewrite exec_S; unfold body_of, nm;
+    unfold run_fun, run_fun_args, do_call;
+    change (lookup nm ft) with (Some (mkGfun "r" [] (body_of nm)));
+    cbn [gf_body gf_params bind]; rewrite exec_S; unfold body_of, nm;
     cbn [lookup golite_funcs String.eqb Ascii.eqb Bool.eqb gf_body];
     unfold repr, enter; ev;
     rewrite xb_cons, xs_lock; unfold do_lock; ev; cbn [mem_s opt_result];
@@ -425,15 +425,15 @@ Section RemoteRefines.
   Lemma len_cons_lt1 : forall {A} (x : A) l, (Z.of_nat (length (x :: l)) <? 1)%Z = false.
   Proof. intros. apply Z.ltb_ge. cbn [length]. lia. Qed.
 
-  Lemma ensure_step : forall f r L a u h df, 1 <= f ->
+  Lemma ensure_step : forall f r L a u h df ef, 1 <= f ->
       exec_stmt permI (exec permI f ft) ft ensure_stmt
                 (mkState [("r.addresses", enc_groups (addrs r)); ("r.toIterate", enc_groups (iter r))]
-                         L (draws r) a u h df) =
+                         L (draws r) a u h df ef) =
       RNormal (mkState [("r.addresses", enc_groups (addrs (ensure perm r)));
                         ("r.toIterate", enc_groups (iter (ensure perm r)))]
-                       L (draws (ensure perm r)) a u h df).
+                       L (draws (ensure perm r)) a u h df ef).
   Proof.
-    intros f [A I D] L a u h df Hf. cbn [addrs iter draws]. unfold ensure_stmt, ensure. cbn [iter].
+    intros f [A I D] L a u h df ef Hf. cbn [addrs iter draws]. unfold ensure_stmt, ensure. cbn [iter].
     rewrite xs_cond. destruct I as [|g0 I'].
     - change (enc_groups []) with (VList []). ev. cbn [length Z.of_nat Z.eqb].
       rewrite xb_cons, xs_call, resetLocked_call by lia. rewrite xb_nil.
@@ -450,7 +450,7 @@ Section RemoteRefines.
   Proof.
     intros fuel r Hf. destruct fuel as [|f]; [lia|].
     enter_fun name_peek.
-    pose proof (ensure_step f r [] 1 0 ["r"] ["r"] ltac:(lia)) as He. unfold ensure_stmt in He.
+    pose proof (ensure_step f r [] 1 0 ["r"] ["r"] [] ltac:(lia)) as He. unfold ensure_stmt in He.
     rewrite xb_cons, He. clear He.
     unfold peek. cbv zeta. set (r1 := ensure perm r). clearbody r1. destruct r1 as [A1 I1 D1].
     cbn [iter addrs draws]. rewrite xb_cons, xs_ret.
@@ -462,12 +462,12 @@ Section RemoteRefines.
       cbn [Z.ltb Z.compare Z.to_nat nth_error]. leave_fun. reflexivity.
   Qed.
 
-  Lemma while_prune : forall (gs : list (list (list N))) f A L d a u h df, length gs < f ->
+  Lemma while_prune : forall (gs : list (list (list N))) f A L d a u h df ef, length gs < f ->
       exec_stmt permI (exec permI f ft) ft prune_stmt
-                (mkState [("r.addresses", A); ("r.toIterate", enc_groups gs)] L d a u h df) =
-      RNormal (mkState [("r.addresses", A); ("r.toIterate", enc_groups (prune gs))] L d a u h df).
+                (mkState [("r.addresses", A); ("r.toIterate", enc_groups gs)] L d a u h df ef) =
+      RNormal (mkState [("r.addresses", A); ("r.toIterate", enc_groups (prune gs))] L d a u h df ef).
   Proof.
-    induction gs as [|g gs IH]; intros f A L d a u h df Hf; unfold prune_stmt; rewrite xs_while.
+    induction gs as [|g gs IH]; intros f A L d a u h df ef Hf; unfold prune_stmt; rewrite xs_while.
     - change (enc_groups []) with (VList []). ev. cbn [length Z.of_nat Z.eqb negb]. reflexivity.
     - change (enc_groups (g :: gs)) with (VList (enc_group g :: map enc_group gs)). ev.
       rewrite len_cons_eq0. cbn [negb Z.ltb Z.compare Z.to_nat nth_error]. ev.
@@ -503,7 +503,7 @@ Section RemoteRefines.
   Proof.
     intros fuel r Hf. destruct fuel as [|f]; [lia|].
     enter_fun name_get.
-    pose proof (ensure_step f r [] 1 0 ["r"] ["r"] ltac:(lia)) as He. unfold ensure_stmt in He.
+    pose proof (ensure_step f r [] 1 0 ["r"] ["r"] [] ltac:(lia)) as He. unfold ensure_stmt in He.
     rewrite xb_cons, He. clear He.
     pose proof (ensure_length r) as Hlen.
     unfold get. cbv zeta. set (r1 := ensure perm r) in *. clearbody r1. destruct r1 as [A1 I1 D1].
@@ -521,7 +521,7 @@ Section RemoteRefines.
       assert (Hle : forall {B} (y : B) l, (Z.of_nat (length (y :: l)) <=? 0)%Z = false)
         by (intros; apply Z.leb_gt; cbn [length]; lia).
       rewrite Hle. cbn [Z.ltb Z.compare orb Z.to_nat firstn skipn app]. ev.
-      pose proof (while_prune (g :: rest) f (enc_groups A1) [("addr", VStr x)] D1 1 0 ["r"] ["r"]
+      pose proof (while_prune (g :: rest) f (enc_groups A1) [("addr", VStr x)] D1 1 0 ["r"] ["r"] []
                               ltac:(unfold groups, addr, bytes in *; cbn [length] in *; lia)) as Hw.
       unfold prune_stmt in Hw.
       change (enc_groups (g :: rest)) with (VList (VList (map VStr g) :: map enc_group rest)) in Hw.
